@@ -2,5 +2,5 @@ SPECIFICATION MCSpec
 CONSTANTS
   Fix = 1
   Mutant = "none"
-INVARIANTS ProbeOK CopyOK FlipOK HomogeneousOK RefOK RangeOK
+INVARIANTS ProbeOK CopyOK FlipOK HomogeneousOK RefOK RangeOK WideConsistentOK
 VIEW MCView
